@@ -293,7 +293,9 @@ class Gen:
         if k < 0.76:
             return ("Gr", self.lst(depth - 1, loops, infunc, ncalls))
         if k < 0.86:
-            body = self.lst(depth - 1, 0, infunc, ncalls)
+            # (no `return` directly in a subshell of a function: bash's `( ! return n )` inverts the status the subshell
+            #  leaves with, another face of the execute_in_subshell quirk described in DESIGN.md 13.2)
+            body = self.lst(depth - 1, 0, False, ncalls)
             if "opts" in self.feats and (body[0] == "N" or (body[0] == "S" and len(body[1]) == 1 and body[1][0][0] == "N")):
                 # bash's execute_in_subshell strips the `!` flag from a subshell whose whole body is one negated
                 # command before running it, so under `set -e` failures inside `( ! cmd )` are not exempt (a bash
@@ -304,12 +306,12 @@ class Gen:
             return self.call(ncalls)
         if "pipe" in self.feats and r.random() < 0.4:
             n = r.choice([1, 1, 2, 3])
-            last = self.cmd(depth - 1, 0, infunc, ncalls)
+            last = self.cmd(depth - 1, 0, False, ncalls)
             if last[0] == "Ev":
                 last = ("Gr", last)   # bash: errexit inside `… | eval` leaves with status 1, not the failing status (quirk)
             return ("Pi", [r.choice([0, 0, 1, 3]) for _ in range(n)], last)
         if "cs" in self.feats and r.random() < 0.5:
-            return ("Cs", self.lst(depth - 1, 0, infunc, ncalls))
+            return ("Cs", self.lst(depth - 1, 0, False, ncalls))
         if "ev" in self.feats and r.random() < 0.5:
             return ("Ev", self.lst(depth - 1, loops, infunc, ncalls))
         return self.simple(loops, infunc, ncalls)
